@@ -7,7 +7,8 @@ def run(ctx):
         return rerun(ctx)
     # 1. exhaustive model check: three concurrent sessions (honest dialer, attacker's node, self-connection), the attacker chooses every deliverable signature message
     #    plus a connection opened by the attacker with a recorded SecureRequest (transcript replay, session 4)
-    consts = {"MaxOps": 11}
+    #    and the environment creating many other peer ids (IdentityFinal: an assigned identity never changes)
+    consts = {"MaxOps": 12}
     if ctx.quick():
         consts.update({"SigForms": '{"full", "rflip", "empty"}', "PkForms": '{"comp", "bad"}'})
     else:
@@ -15,9 +16,9 @@ def run(ctx):
         consts.update({"SigForms": '{"full", "nov", "rflip", "empty"}'})
     r = ctx.model_check("net", "MC_Handshake", "MC_Handshake.cfg", constants=consts, coverage=True,
                         timeout=ctx.pick(600, 3000))
-    ctx.check_coverage(r, ["Start", "ReplayTranscript", "ToAcceptor", "ToDialer"])
+    ctx.check_coverage(r, ["Start", "ReplayTranscript", "ToAcceptor", "ToDialer", "OtherIds"])
     if not ctx.quick():
-        r2 = ctx.model_check("net", "MC_Handshake", "MC_Handshake.cfg", constants={"MaxOps": 8, "Sessions": "{1, 2, 4}"},
+        r2 = ctx.model_check("net", "MC_Handshake", "MC_Handshake.cfg", constants={"MaxOps": 9, "Sessions": "{1, 2, 4}"},
                              coverage=True, timeout=3000, label="all encodings")
         ctx.check_coverage(r2, ["Start", "ReplayTranscript", "ToAcceptor", "ToDialer"])
     ctx.exhaustive = True
@@ -31,8 +32,8 @@ def run(ctx):
                         constants=dict({"MaxOps": 3, "Depth": 3, "Sessions": "{1, 4}"}, **red), timeout=900)
     tx = [b for b in tx if any(st["op"] == "replaytx" for st in b)]
     bs = bs + tx
-    walks = ctx.behaviours("net", "Gen_Handshake", "Gen_Handshake.cfg", constants={"MaxOps": 11, "Depth": 11},
-                           simulate="num=%d" % ctx.pick(500, 5000), depth=13, seed=ctx.seed, timeout=1500)
+    walks = ctx.behaviours("net", "Gen_Handshake", "Gen_Handshake.cfg", constants={"MaxOps": 12, "Depth": 12},
+                           simulate="num=%d" % ctx.pick(500, 5000), depth=14, seed=ctx.seed, timeout=1500)
     allb = bs + walks
     # vacuity guard on the generated cases: every verdict class of the spec must occur
     seen = {st["res"] for b in allb for st in b}
@@ -52,6 +53,11 @@ def run(ctx):
                             raise MachineryError("spec predicts %s for a replayed transcript" % nx["res"])
                         return True
         return False
+    # ... and so must the environment action OtherIds after an identity was assigned
+    nchurn = sum(1 for b in allb if any(st["op"] == "churn" and st["acc"] for st in b))
+    if nchurn < 20:
+        raise MachineryError("vacuity: OtherIds after an accepted connection generated only %d times" % nchurn)
+    ctx.notes.append("runs with 150 foreign peer ids created after an identity was assigned: %d" % nchurn)
     nfull = sum(1 for b in allb if full_replay(b))
     if nfull < 2:
         raise MachineryError("vacuity: transcript replay generated only %d times" % nfull)
